@@ -1,5 +1,5 @@
-\* exhaustive design check (quick): <= 3 WriteMsg calls over the 8 payload size classes, 2 sub-protocols, every ending, every
-\* interleaving of writes and reads; every message has a buffer of its own
+\* exhaustive design check (thorough, next to Gen_FrameStream.cfg which checks the same invariants while generating): <= 3 WriteMsg
+\* calls over the 8 payload size classes, 2 sub-protocols, every ending, every interleaving; every message has a buffer of its own
 SPECIFICATION Spec
 CONSTANTS
   Classes <- C8
